@@ -1131,8 +1131,8 @@ def rule_r13(prog, res) -> None:
                     res.violation("C17.R13", m, rv, f"{ci.name}.{pname} returns the length of the {axes[k]} axis of self.{arr} (axes {axes}): the number of bins is reported as the number of {pname[4:]}, loops over patches / samples and arrays sized by it cover the wrong range", key_extra=f"size-axis-{ci.name}-{pname}")
                 else:
                     res.ok("C17.R13", res.site(m, f"{ci.name}.{pname}"), f"length of axis {k} ({axes[k]}) of self.{arr}")
-    if n < 3:
-        raise AnalysisError(f"C17.R13: only {n} size properties typed, minimum 3")
+    if n < 2:
+        raise AnalysisError(f"C17.R13: only {n} size properties typed, minimum 2")
 
 
 def rule_r14(prog, res) -> None:
@@ -1248,13 +1248,26 @@ def rule_r11(prog, res) -> None:
                         env[f"{nm}.size"] = int(__import__("math").prod(shp))
                         for k_, d_ in enumerate(shp):
                             env[f"{nm}.shape[{k_}]"] = d_
+            # locals that hold a known quantity (`num_bins = self.num_bins`, `expected = (num_bins,)`)
+            for _ in range(3):
+                for x in ast.walk(node):
+                    if isinstance(x, ast.Assign) and len(x.targets) == 1 and isinstance(x.targets[0], ast.Name) and x.targets[0].id not in env:
+                        try:
+                            env[x.targets[0].id] = ceval(x.value, env)
+                        except (Unknown, TypeError, IndexError):
+                            pass
             fired = []
+            undecided = []
             for g in guards:
                 try:
                     if bool(ceval(g.test, env)):
                         fired.append(g)
-                except (Unknown, TypeError, IndexError):
+                except (Unknown, TypeError, IndexError) as err:
+                    undecided.append((g, err))
                     continue
+            if not fired and undecided and what != "valid":
+                # a check that cannot be folded for this witness may be the one that rejects it: no verdict
+                raise AnalysisError(f"C17.R11: cannot fold `{unparse(undecided[0][0].test)[:60]}` of {cname}.__init__ for the witness '{what}' ({undecided[0][1]})")
             n += 1
             if what == "valid":
                 if fired:
